@@ -7,28 +7,29 @@ PROPS = {
         level='proof',
         timeout={'quick': 600, 'thorough': 3000},
         trusted_base=[KERNEL, HARNESS,
-                      "modelled by hand (tied by exhaustive correspondence, not by translation): buildPermTree as the trie of the signer URIs, validatePermTree as recursion over it, ThresholdValidator, AKSetsValidator, the loop of verifyRWSetPermission",
-                      "signature verification (IdentifyAK / VerifySign) is not modelled: the last component of every URI is taken as verified, which is what verifySignatures establishes before the ACL is consulted"],
+                      "modelled by hand (tied by exhaustive correspondence, not by translation): buildPermTree as the trie of the signer URIs and validatePermTree as recursion over it (lean/XV/Model/Acl.lean, the model the theorems are about), ThresholdValidator, AKSetsValidator, the loop of verifyRWSetPermission; a second, literal model (array of nodes, FindChild, Terminal flag, BFS list, backwards traversal with stored statuses; lean/XV/Model/AclTree.lean) is evaluated by the driver on every op line and must agree with the trie model (answer model-split otherwise) - that agreement is checked on every executed case, not proved",
+                      "signature verification (IdentifyAK / VerifySign) is not modelled: the last component of every URI is taken as verified, which is what verifySignatures establishes before the ACL is consulted (C07)"],
         assumptions=["names are non-empty and the stored ACLs passed validACL (permission model present, rule SIGN_THRESHOLD or SIGN_AKSET); an empty name or an unknown rule makes the real evaluation return an error, i.e. reject",
-                     "AksWeight is a map: the member names of a threshold rule are pairwise distinct (hypothesis RuleWF / EnvWF of the theorems)",
+                     "AksWeight is a Go map: the member names of a threshold rule are pairwise distinct (hypotheses RuleWF / EnvWF of the theorems)",
                      "weights and thresholds are dyadic (multiples of 1/4 in the harness) so float64 summation is exact; summation order for other weights is not modelled",
-                     "a name without stored ACL is open (GetAccountACL returns nil: 'empty ACL means everyone could pass'); this is the documented behaviour and part of the specification",
-                     "verifyRWSetPermission: the confirmed XCContract2Account entry is an input (owner map); the harness covers the contract bucket only for contracts without a confirmed owner entry (reject)"],
+                     "a name without stored ACL is open (GetAccountACL returns nil: 'empty ACL means everyone could pass'); this is the documented behaviour of the code and part of the specification, so a rule that lists a non-existent account is satisfied by any URI delegating through that name",
+                     "verifyRWSetPermission is modelled for transactions that carry contract requests (without requests it passes directly; verifyTxRWSets then rejects any extended output); the confirmed XCContract2Account table is an input (owner map); the harness uses one fixed confirmed owner table written into a real ledger + xmodel",
+                     "IdentifyAccount on a root name that is an address (not an account) returns true without evaluating anything (unchanged behaviour, outside the property)"],
     ),
 }
 
 ENGINES = [
-    dict(name='acl', path='go/cmd/acl + lean/XV/Model/Acl.lean', serves_properties=['C11'],
-         kind_free_text='Lean model of the permission trie, validatePermTree, the two validators and the verifyRWSetPermission loop; harness drives the real IdentifyAccount / CheckContractMethodPerm with a fake ACL manager and State.verifyRWSetPermission through an export shim'),
+    dict(name='acl', path='go/cmd/acl + lean/XV/Model/Acl.lean + lean/XV/Model/AclTree.lean', serves_properties=['C11'],
+         kind_free_text='Lean model of the permission trie, validatePermTree, the two validators and the verifyRWSetPermission loop; harness drives the real IdentifyAccount / CheckContractMethodPerm with a fake ACL manager and the real State.verifyRWSetPermission (fresh ledger, confirmed owner table) through an export shim'),
 ]
 
 META = {
     'C11': dict(
-        text="Kernel-checked theorems (lean/XV/Props/C11.lean) about the model of IdentifyAccount / CheckContractMethodPerm after the repair 'a key inside a signer uri counts only as its last component': eval_eq_spec / eval_eq_spec_method (for every rule environment with distinct member names, every nesting bound and every URI list the evaluation accepts exactly when sat holds for the set of verified names: a key counts iff some URI ends with it at that level, a nested account iff a URI delegates through it and its own rule is satisfied below), eval_monotone (non-negative weights), dup_irrelevant (depends only on the set of URIs), outsiders_irrelevant (URIs of other accounts, non-members), nonterminal_key_irrelevant, acl_change_needs_owner (verifyRWSetPermission accepts a write to XCAccount/<A>, XCContract/<c>.<m> or XCContract2Account only if the owning account's confirmed rule is satisfied by AuthRequire). Tie: exhaustive small-universe correspondence of the real code with the model and with an independent Go oracle of sat.",
+        text="Kernel-checked theorems (lean/XV/Props/C11.lean, lemmas in lean/XV/Lemmas/Acl.lean) about the model of IdentifyAccount / CheckContractMethodPerm after the repair 'a key inside a signer uri counts only as its last component' (repo commit 8beb18f): eval_eq_spec / eval_eq_spec_method - for every rule environment with distinct member names, every URI list and every nesting bound the evaluation accepts exactly when sat holds (sum of the weights of the members that are verified >= threshold, or a listed non-empty key set consists of verified names), where a key is verified iff some URI ends with it at that level and a nested account iff a URI delegates through it and its own rule is satisfied below; eval_flat_threshold / eval_flat_sets (the same spelled out for rules over keys); eval_monotone(_method) for non-negative weights (eval_monotone_needs_nonneg: the hypothesis is necessary); dup_irrelevant(_method) and repeated_uri_irrelevant (the result depends only on the SET of URIs); outsiders_irrelevant (URIs of other accounts), nonmember_irrelevant, nonterminal_key_irrelevant (the statement the code violated before the repair: v0_counts_nonterminal_key, v0_violates_spec, repaired_rejects_nonterminal_key); acl_change_needs_owner (verifyRWSetPermission accepts a write to XCAccount/<A>, XCContract/<c>.<m> or XCContract2Account only if the rule in force of the owning account is satisfied by AuthRequire, or the owner was already identified with the same AuthRequire). Nothing is partial. Tie: exhaustive small-universe correspondence (every rule pair x all URI multisets of size <= 4 over a 14-URI alphabet, 76 million cases in the thorough tier) of the real code with the model, with a literal tree/BFS model, and with an independent Go oracle of sat; random larger cases; the real State.verifyRWSetPermission on a real ledger.",
         design_ref='DESIGN.md §6 C11',
-        note="Trusted: Lean kernel, the harness. The pointer tree and the reverse-BFS order of validatePermTree are abstracted as recursion over URI prefixes (tied by correspondence on every multiset of the small universe). Signature verification itself belongs to C07. Not covered: float64 summation order for non-dyadic weights; error paths for malformed ACLs / empty names.",
+        note="Trusted: Lean kernel, the harness. The pointer tree and the reverse-BFS order of validatePermTree are abstracted as recursion over URI prefixes; a literal tree model is cross-checked on every executed case but its equivalence with the trie model is not proved. Signature verification itself belongs to C07. Not covered: float64 summation order for non-dyadic weights; error paths for malformed ACLs / empty names; end-to-end State.VerifyTx (only verifyRWSetPermission is driven on a real State).",
         technique='Lean 4 proof over a hand model of the permission trie and validators; exhaustive small-universe differential correspondence with the real code; independent Go oracle of the specification',
     ),
 }
 
-HOOK_COMMITS = []
+HOOK_COMMITS = ['c0370f9 verif hook: export verifyRWSetPermission and an unverified xmodel write for the verification harness (build tag verif)']
